@@ -42,7 +42,10 @@ type runCtx struct {
 	nOracle   int
 	maxSample int
 	nSampled  int
-	srng      *rand.Rand
+	failSigs  map[string]int
+	// independent is set by engines whose ops do not depend on earlier ops of the sequence
+	independent bool
+	srng        *rand.Rand
 }
 
 func clip(s string) string {
@@ -158,13 +161,27 @@ func (c *runCtx) nontrivial(key string) {
 // oracle evaluates one assertion of the property's own predicate on the
 // implementation's output.
 func (c *runCtx) oracle(assertion string, ok bool, detail string) {
+	c.oracleSig(assertion, "", ok, detail)
+}
+
+// oracleSig is oracle with a failure signature: at most 6 failures are recorded per
+// (assertion, signature), so that a rare kind of failure is never crowded out by a frequent one.
+func (c *runCtx) oracleSig(assertion, sig string, ok bool, detail string) {
 	c.nOracle++
 	if ok {
 		return
 	}
 	c.count("oracle_fail:" + assertion)
-	if len(c.failures) < 50 {
+	key := assertion + "|" + sig
+	if c.failSigs == nil {
+		c.failSigs = map[string]int{}
+	}
+	c.failSigs[key]++
+	if c.failSigs[key] <= 6 && len(c.failures) < 300 {
 		ops := append([]string(nil), c.curSeq...)
+		if c.independent && len(ops) > 0 { // every op is a self-contained case: the last op is the witness
+			ops = ops[len(ops)-1:]
+		}
 		c.failures = append(c.failures, oracleFailure{Prop: c.prop, Assertion: assertion, Detail: detail, Seq: c.nSeq, Ops: ops})
 	}
 }
